@@ -606,10 +606,69 @@ def stream_of(meth):
     return ps[0]['name']
 
 
+def expr_paths(e, acc=None):
+    """member paths an expression reads (fields and container sizes)"""
+    acc = set() if acc is None else acc
+    if isinstance(e, tuple):
+        if e and e[0] in ('fld', 'bsize'):
+            acc.add(e[1])
+        else:
+            for x in e[1:]:
+                expr_paths(x, acc)
+    return acc
+
+
+def stmt_writes(sts, acc=None):
+    """member paths a translated statement list may modify"""
+    acc = set() if acc is None else acc
+    for st in sts:
+        if st[0] in ('rd', 'rdBuf', 'resize', 'assign'):
+            acc.add(st[1])
+        elif st[0] == 'if':
+            stmt_writes(st[2], acc); stmt_writes(st[3], acc)
+        elif st[0] == 'sync':
+            acc.add('signature')
+    return acc
+
+
 def proc_body(ctx, stmts):
     out = []
+    locals_here = []       # (name, paths its initialiser reads, index into out where it was declared)
     for st in stmts:
+        if st.get('kind') == 'DeclStmt':
+            # `const T n = <expr>;` in a read()/write() body: the local is substituted by its initialiser.  That is the same
+            # program only if nothing the initialiser reads is modified while the local is in use - checked below, over the rest
+            # of the block (coarse: until the end of the block, not until the last use)
+            for v in st['inner']:
+                if v.get('kind') != 'VarDecl':
+                    raise Unsupported('decl ' + str(v.get('kind')))
+                init = [x for x in v.get('inner', []) if x.get('kind') != 'FullComment']
+                lt = ' '.join(x for x in qual(v['type']).split() if x not in ('const', 'volatile'))
+                lt = ELEM_ALIAS.get(lt, lt)
+                w = SCALAR_W.get(lt)
+                if w is None or lt in ('double', 'float', 'bool') or not init:
+                    raise Unsupported('local in procedure: type ' + qual(v['type']))
+                e0 = num(expr(init[0], ctx))
+                st_ = ' '.join(x for x in qual(init[0]['type']).split() if x not in ('const', 'volatile'))
+                st_ = ELEM_ALIAS.get(st_, st_)
+                ws = SCALAR_W.get(st_)
+                if lt in SIGNED:
+                    # a signed local (std::streamsize): the same value as long as the initialiser is a non-negative quantity below 2^63 -
+                    # accepted for 64-bit locals whose initialiser has no subtraction / complement
+                    def has_neg(x):
+                        return isinstance(x, tuple) and (x[0] in ('sub', 'bnot', 'neg') or any(has_neg(y) for y in x[1:]))
+                    if w != 8 or has_neg(e0):
+                        raise Unsupported('local in procedure: signed type ' + qual(v['type']))
+                e = e0 if (ws is not None and ws <= w and st_ not in SIGNED) or lt in SIGNED else ('cast', w, e0)
+                ctx.env[v['name']] = e
+                locals_here.append((v['name'], expr_paths(e), len(out)))
+            continue
         out += stmt(ctx, st)
+    for nm, paths, k in locals_here:
+        wr = stmt_writes(out[k:])
+        if any(p_ == q or p_.startswith(q + '.') or q.startswith(p_ + '.') for p_ in paths for q in wr):
+            raise Unsupported('local %s: its initialiser reads a member that the rest of the block modifies' % nm)
+        ctx.env.pop(nm, None)
     return out
 
 
